@@ -15,7 +15,7 @@ use vh::tr::{Tr, TrZ};
 type Runner = fn(&mut Report, &CollParams, Fam, u64, u64, FailPlan) -> HistOut;
 
 type SU1 = BumpSettings<1, true>;
-type SD1 = BumpSettings<1, false>;
+type SD1 = BumpSettings<1, false, false>;
 type SU8 = BumpSettings<8, true, false>;
 type SD16 = BumpSettings<16, false, true, true, true, true, 64>;
 
